@@ -273,7 +273,7 @@ class TimeDependentLinearPDE(LinearPDE):
 
         # If observation grid is the same as solution grid and observation time
         # is the final time step then no need to interpolate
-        if self.grids_equal and np.all(self.time_steps[-1:] == self._time_obs):
+        if self.grids_equal and np.array_equal(self.time_steps[-1:], self._time_obs):
             solution_obs = solution[..., -1]
 
         # Interpolate solution in time and space to the observation
